@@ -40,12 +40,24 @@ struct Only {
 
 fn fail(rep: &mut Report, c: &Case, abi: &Abi, policy: CanonPolicy, mode: &str, val: Option<&Val>, class: &str, detail: &str) {
     let kind = top_kind(abi, &c.ty);
+    let sig = format!("{mode}:{class}:{kind}:w{}", abi.ptr);
+    rep.count("failures");
+    // Types outside the component-encodable domain (flags with 0 or >32 members):
+    // a *difference from the reference* is inconclusive (the spec does not define
+    // them), but the generator contradicting itself (its own lift does not undo its
+    // own lower, or it panics while emitting) is judged without the reference.
+    let internal = mode.starts_with("roundtrip") || mode.starts_with("record:");
+    let outside = outside_encodable_domain(abi, &c.ty) && !internal;
+    if !outside && rep.has_violation(&sig) {
+        // one witness per signature is kept; do not pay for building another one
+        return;
+    }
     let witness = json!({
         "unit": c.unit.label, "wit": c.unit.wit, "synthetic": c.unit.synthetic, "path": c.path,
         "type": shorten(&abi.shape_key(&c.ty), 300), "width": abi.ptr, "policy": policy.name(), "mode": mode,
         "value": val.map(|v| v.text()),
     });
-    if outside_encodable_domain(abi, &c.ty) {
+    if outside {
         rep.inconclusive(&format!("outside encodable domain ({}): encoding differs from the reference; witnesses in coverage.outside_domain_witnesses", domain_kinds(abi, &c.ty)));
         rep.count(&format!("outside-domain:{mode}:{class}"));
         extra_push(rep, "outside_domain_witnesses", json!({"witness": witness, "detail": shorten(detail, 400)}), 12);
@@ -56,7 +68,6 @@ fn fail(rep: &mut Report, c: &Case, abi: &Abi, policy: CanonPolicy, mode: &str, 
         extra_push(rep, "layout_suspect_witnesses", json!({"witness": witness, "detail": shorten(detail, 400)}), 12);
         return;
     }
-    let sig = format!("{mode}:{class}:{kind}:w{}", abi.ptr);
     rep.violation(&sig, &format!("{detail} [type {} value {} policy {}]", shorten(&abi.shape_key(&c.ty), 200), val.map(|v| shorten(&v.text(), 200)).unwrap_or_default(), policy.name()), witness);
 }
 
